@@ -290,7 +290,7 @@ AsEnv(s, r) == [r EXCEPT !.env = s.env]
 RECURSIVE ReturnsInput(_)
 ReturnsInput(e) == CASE e.op = "SELF" -> TRUE
                      [] e.op \in {"PIPE", "SHORT_PIPE"} -> e.l.op # "ASSIGN_VARIABLE" /\ ReturnsInput(e.l) /\ ReturnsInput(e.r)
-                     [] e.op \in {"ASSIGN", "ADD_ASSIGN", "SUBTRACT_ASSIGN", "MULTIPLY_ASSIGN", "MAP_VALUES", "DELETE_CHILD", "WITH"} -> TRUE
+                     [] e.op \in {"ASSIGN", "ADD_ASSIGN", "SUBTRACT_ASSIGN", "MULTIPLY_ASSIGN", "MAP_VALUES", "DELETE_CHILD", "WITH", "SORT_KEYS", "OMIT"} -> TRUE   \* (omit: when it has nothing to do)
                      [] OTHER -> FALSE
 \* `a , b` where both operands return the same list object: the pinned code emits it once (C01 finding union-same-list)
 UnionOpen(l, r) == (ReturnsInput(l) /\ ReturnsInput(r)) \/ (l.op = "GET_VARIABLE" /\ r.op = "GET_VARIABLE" /\ l.name = r.name)
@@ -761,6 +761,58 @@ EvExt(e, s) ==
                  LET keys == FoldLeft(LAMBDA ks, x : FoldLeft(LAMBDA k2, kv : IF \E j \in DOMAIN k2 : k2[j] = kv[1] THEN k2 ELSE Append(k2, kv[1]), ks, x.m), <<>>, v.e) IN
                  Emit(acc, <<Det(MapV([j \in DOMAIN keys |-> <<keys[j], SeqV([i \in DOMAIN v.e |-> IF HasKey(v.e[i], keys[j]) THEN MapGet(v.e[i], keys[j]) ELSE Null])>>]))>>)
             ELSE Fail(acc, "unspec"))
+    [] e.op \in {"PICK", "OMIT"} ->
+         \* pick(keys) / omit(keys): the list is evaluated once on the whole context IN THE CALLER'S MODE (a path in it that
+         \* does not exist yet is created, as anywhere else); only its first result counts. A map keeps the listed keys IN
+         \* THE ORDER OF THE LIST (omit: loses them, in its own order); a sequence the listed positions. List elements are
+         \* compared by type and spelling: only a string names a key, only an integer a position. The result is a new value.
+         \* pick of a scalar is an error; omit of a scalar gives the context back as it was.
+         LET A == Ev(e.r, s) IN
+         IF ~Ok(A) THEN A
+         ELSE LET lst == IF A.ctx = <<>> THEN Null ELSE ValOf(A.doc, A.ctx[1])
+                  ks == IF lst.k = "seq" THEN lst.e ELSE <<>>
+                  s1 == [s EXCEPT !.doc = A.doc]
+                  isKey(x, k) == x.k = "str" /\ x.s = k
+                  isIdx(x, n) == x.k = "num" /\ x.int /\ x.n = n IN
+              IF lst.k = "map" /\ lst.m # <<>> THEN Fail(s, "unspec")                                   \* a map as the list: keys and values alike
+              ELSE IF \E i \in DOMAIN ks : ks[i].k = "num" /\ ~ks[i].int THEN Fail(s, "unspec")         \* floats are compared by spelling
+              ELSE IF e.op = "OMIT" /\ (ks = <<>> \/ \E i \in DOMAIN s1.ctx : IsScalar(ValOf(s1.doc, s1.ctx[i]))) THEN s1
+              ELSE PerNode(s1, LAMBDA acc, c :
+                LET v == ValOf(acc.doc, c) IN
+                IF IsScalar(v) THEN Fail(acc, "err")
+                ELSE IF v.k = "map" THEN
+                     IF e.op = "PICK"
+                     THEN LET present == SelectSeq(ks, LAMBDA x : x.k = "str" /\ HasKey(v, x.s)) IN
+                          IF \E i, j \in DOMAIN present : i # j /\ present[i].s = present[j].s THEN Fail(acc, "unspec")    \* a key listed twice
+                          ELSE Emit(acc, <<Det(MapV([i \in DOMAIN present |-> <<present[i].s, MapGet(v, present[i].s)>>]))>>)
+                     ELSE Emit(acc, <<Det(MapV(SelectSeq(v.m, LAMBDA kv : ~\E i \in DOMAIN ks : isKey(ks[i], kv[1]))))>>)
+                ELSE IF e.op = "PICK"
+                     THEN IF \E i \in DOMAIN ks : ks[i].k = "str" /\ ks[i].s # <<>> /\ \A j \in DOMAIN ks[i].s : IsDigitAtom(ks[i].s[j]) THEN Fail(acc, "unspec")   \* "1" read as a number
+                          ELSE IF \E i \in DOMAIN ks : ~(ks[i].k = "num") THEN Fail(acc, "err")
+                          ELSE LET inr == SelectSeq(ks, LAMBDA x : x.n >= 0 /\ x.n < Len(v.e)) IN Emit(acc, <<Det(SeqV([i \in DOMAIN inr |-> v.e[inr[i].n + 1]]))>>)
+                     ELSE LET keep == SelectSeq(Upto(Len(v.e)), LAMBDA i : ~\E j \in DOMAIN ks : isIdx(ks[j], i - 1)) IN Emit(acc, <<Det(SeqV([i \in DOMAIN keep |-> v.e[keep[i]]]))>>))
+    [] e.op = "SORT_KEYS" ->
+         \* sort_keys(sel): every map that sel selects gets its entries sorted by key IN PLACE (the operator is used with -i);
+         \* inside a read-only position that is an edit the documentation does not rule on
+         IF s.ro THEN Fail(s, "unspec") ELSE
+         LET Sel == Ev(e.r, RO(s)) IN IF ~Ok(Sel) THEN Sel ELSE
+         IF \E i \in DOMAIN Sel.ctx : ~Sel.ctx[i].in THEN Fail(s, "unspec")
+         ELSE LET sortMap(m) == MapV(SortSeq(m.m, LAMBDA x, y : StrCmp(x[1], y[1]) < 0))
+                  doc2 == FoldLeft(LAMBDA d, it : IF Exists(d, it.p) /\ Get(d, it.p).k = "map" THEN Replace(d, it.p, sortMap(Get(d, it.p))) ELSE d, Sel.doc, Sel.ctx)
+              IN [s EXCEPT !.doc = doc2]
+    [] e.op \in {"MIN", "MAX"} ->
+         \* the smallest / largest element of a sequence (or of the values of a map) of numbers or of strings
+         PerNode(s, LAMBDA acc, c :
+            LET v == ValOf(acc.doc, c)
+                xs == IF v.k = "seq" THEN v.e ELSE IF v.k = "map" THEN [i \in DOMAIN v.m |-> v.m[i][2]] ELSE <<>> IN
+            IF IsScalar(v) THEN Fail(acc, "unspec")
+            ELSE IF xs = <<>> THEN acc
+            ELSE IF ~((\A i \in DOMAIN xs : xs[i].k = "num") \/ (\A i \in DOMAIN xs : xs[i].k = "str")) THEN Fail(acc, "unspec")
+            ELSE LET cmp(a, b) == IF a.k = "num" THEN NumCmp(a, b) ELSE StrCmp(a.s, b.s)
+                     best == CHOOSE i \in DOMAIN xs : \A j \in DOMAIN xs : (IF e.op = "MIN" THEN cmp(xs[i], xs[j]) <= 0 ELSE cmp(xs[i], xs[j]) >= 0) /\ (cmp(xs[i], xs[j]) = 0 => i <= j)
+                 IN IF \E j \in DOMAIN xs : cmp(xs[best], xs[j]) = 0 /\ ~VEq(xs[best], xs[j]) THEN Fail(acc, "unspec")      \* 1 and 1.0
+                    ELSE Emit(acc, <<Det(xs[best])>>))
+    [] e.op = "ERROR" -> IF s.ctx = <<>> THEN Fail(s, "unspec") ELSE Fail(s, "err")
     [] e.op = "SET_PATH" ->
          \* setpath(p; v): p is evaluated once, read-only, on the whole context and must give ONE path; for every context
          \* node v is evaluated read-only on it and must give ONE value, which is assigned at the path below the node
